@@ -6,8 +6,10 @@ mod ops2;
 mod faults;
 mod ops3;
 mod ops4;
+mod ops5;
 mod gen2;
 mod gen3;
+mod gen4;
 mod rng;
 
 use std::io::{BufRead, Write};
@@ -53,6 +55,8 @@ pub fn run_op(lhs: &str) -> String {
             "fragob" => ops4::op_fragob(args),
             "fragenc" => ops4::op_fragenc(args),
             "faults" => ops4::op_faults(args),
+            "store" => ops5::op_store(args),
+            "misc" => ops5::op_misc(args),
             _ => format!("unknown-op {op}"),
         }
     })
@@ -96,6 +100,7 @@ fn main() {
             gen1::gen(prop, tier, seed, &mut cases);
             gen2::gen(prop, tier, seed, &mut cases);
             gen3::gen(prop, tier, seed, &mut cases);
+            gen4::gen(prop, tier, seed, &mut cases);
             for (i, lhs) in cases.into_iter().enumerate() {
                 if i % shards != sidx {
                     continue;
